@@ -48,6 +48,12 @@ def traj_equal(a, b, where):
         if ta != tb:
             raise Violation('same-outcome-as-parsing-the-sources', f'{where}: got {ta}, parsing the source files with the same arguments gives {tb}')
         return
+    # the stored state first (reading .positions re-wraps and switches representation, which would hide differences)
+    if a.coords_are_displacement != b.coords_are_displacement:
+        raise Violation('representation-identical', f'{where}: coords_are_displacement {a.coords_are_displacement} vs {b.coords_are_displacement}')
+    ca, cb = np.asarray(a.coords), np.asarray(b.coords)
+    if ca.shape != cb.shape or not np.array_equal(ca, cb):
+        raise Violation('stored-coordinates-identical', f'{where}: stored coordinates differ' + ('' if ca.shape != cb.shape else f' by up to {np.abs(ca - cb).max():.3e}'))
     pa, pb = np.asarray(a.positions), np.asarray(b.positions)
     if pa.shape != pb.shape or not np.array_equal(pa, pb):
         raise Violation('positions-identical', f'{where}: shapes {pa.shape} vs {pb.shape}' + ('' if pa.shape != pb.shape else f', max difference {np.abs(pa - pb).max():.3e}'))
@@ -145,6 +151,14 @@ class FileSet:
             self.refs[variant] = call(self.spec, files, variant)
             shutil.rmtree(d, ignore_errors=True)
         return self.refs[variant]
+
+    def reference_fresh(self, variant):
+        """a newly parsed reference (the stored one may have been read through .positions already)"""
+        d = tmpdir()
+        files = write_files(self.spec, d)
+        r = call(self.spec, files, variant)
+        shutil.rmtree(d, ignore_errors=True)
+        return r
 
     def load(self, variant):
         return call(self.spec, self.files, variant)
@@ -356,9 +370,13 @@ def run_faults(case):
         gcall(lambda: first.displacements)
         first.metadata['temperature'] = -1.0
         second = fs.load('base')
-        if not isinstance(second, Raised) and (second is first or second.coords_are_displacement):
-            raise Violation('load-returns-fresh-trajectory', 'a second load returned the object (or representation) a caller had modified')
-        traj_equal(second, ref, 'second load (cache present, after the first result was used and modified)')
+        traj_equal(second, fs.reference_fresh('base'), 'second load (cache present, after the first result was used and modified)')
+        gcall(lambda: second.displacements)
+        second.metadata['temperature'] = -2.0
+        third = fs.load('base')
+        if third is second:
+            raise Violation('load-returns-fresh-trajectory', 'a later load returned the very object an earlier load had handed out')
+        traj_equal(third, fs.reference_fresh('base'), 'third load (cache present, after the second result was used and modified)')
         n_faults = 0
         for f in case['faults']:
             kind = f['kind']
